@@ -104,7 +104,24 @@ CHECKS["C07"] = dict(
     ref="DESIGN.md section 5 C07, section 3.7, section 4 B3/B4",
     technique="TLC model checking of PathLocks.tla + forced pairwise rendezvous + TLC trace validation (Trace_Overlap.tla)")
 
+CHECKS["C16"] = dict(
+    engine="concurrency", category="model_checking",
+    note=("Trusted base: TLC; PathLocks.tla / ConnLoop.tla as validated by C07/C06; the Go race detector (thorough tier) "
+          "for the memory-model clause, which TLA+ does not decide; watchdog of 10 s per request for progress on the real scheduler."),
+    text=("TLC checks that the lock protocol cannot get stuck (PathLocks.tla: termination under fairness for 2 looping "
+          "handlers, TLC deadlock check for 3 one-shot handlers over all plan/node combinations, Go RWMutex semantics incl. "
+          "writer preference and reader admission) and the liveness of the connection loop (ConnLoop.tla). On the code: seeded "
+          "random concurrent workloads (2..64 clients, 1..8 connections, with/without cross-directory renames, delays in backend "
+          "calls and inside reply frames) in which every request must be answered, succeed and carry its own data, with the "
+          "backend log validated by TLC; isolation: Session.tla histories replayed concurrently as independent clients on one "
+          "server, each compared with its own history; thorough: the same under the race detector."),
+    ref="DESIGN.md section 5 C16",
+    technique="TLC model checking (PathLocks/ConnLoop progress) + concurrent model-history replay + random workloads with TLC-validated logs + race detector")
+
 ENGINES = [
+    {"name": "concurrency", "path": "harness/cmd/workload + harness/cmd/isoreplay + spec/PathLocks.tla + spec/ConnLoop.tla + spec/Trace_Overlap.tla",
+     "serves_properties": ["C16"],
+     "kind_free_text": "progress model-checked on the lock/connection specs; concurrent replay of Session.tla histories; random workloads whose logs TLC validates"},
     {"name": "pathlocks", "path": "spec/PathLocks.tla + spec/Trace_Overlap.tla + harness/cmd/pairs",
      "serves_properties": ["C07"],
      "kind_free_text": "lock-plan TLA+ spec; TLC-derived may-overlap matrix; gated rendezvous experiments; TLC trace validation of enter/exit logs"},
